@@ -4,6 +4,7 @@ import (
 	"bufio"
 	"encoding/json"
 	"fmt"
+	"golang.org/x/tools/go/ssa"
 	"os"
 	"path/filepath"
 	"sort"
@@ -36,14 +37,16 @@ func (o *Obligation) Key() string { return o.Rule + " " + o.Construct }
 
 // Ctx carries the program and collects obligations for one property run.
 type Ctx struct {
-	P        *Program
-	Prop     string
-	Obs      []*Obligation
-	Stats    map[string]int // measured counters (functions analysed, call sites, …)
-	Clauses  []string       // decided clauses (for the explanation)
-	NotDec   []string       // clauses not decided
-	Trusted  []string
-	seenKeys map[string]int
+	sender     *ssa.Function
+	senderDone bool
+	P          *Program
+	Prop       string
+	Obs        []*Obligation
+	Stats      map[string]int // measured counters (functions analysed, call sites, …)
+	Clauses    []string       // decided clauses (for the explanation)
+	NotDec     []string       // clauses not decided
+	Trusted    []string
+	seenKeys   map[string]int
 }
 
 func NewCtx(p *Program, prop string) *Ctx {
